@@ -4,7 +4,10 @@
 
 package spec
 
-import "github.com/basecomplextech/spec/internal/types"
+import (
+	"github.com/basecomplextech/baselibrary/buffer"
+	"github.com/basecomplextech/spec/internal/types"
+)
 
 type (
 	// Message is a raw message.
@@ -29,4 +32,9 @@ func OpenMessageErr(b []byte) (Message, error) {
 // ParseMessage recursively parses and returns a message.
 func ParseMessage(b []byte) (_ Message, size int, err error) {
 	return types.ParseMessage(b)
+}
+
+// WriteMessage writes a raw message into a buffer, it is the write function of generated lists of any messages.
+func WriteMessage(b buffer.Buffer, m Message) (int, error) {
+	return WriteValue(b, m.Raw())
 }
